@@ -1050,10 +1050,14 @@ class ChannelFactory:
             except KeyError:
                 channel = self._channels[id] = Channel(self.gateway, id)
                 strconfig = self._strconfigs.pop(id, None)
-                if strconfig is None and id in self._callbacks:
+                if id in self._callbacks:
                     # the object of a channel that lives on through its
-                    # callback was dropped and the channel comes back
-                    strconfig = self._callbacks[id][2]
+                    # callback was dropped and the channel comes back: items
+                    # keep going to the callback, and dropping this object
+                    # again does not close the conversation either
+                    channel._items = None
+                    if strconfig is None:
+                        strconfig = self._callbacks[id][2]
                 if strconfig is not None:
                     channel._strconfig = strconfig
             return channel
